@@ -214,6 +214,15 @@ def is_exact(pl):
     return hasattr(pl, "critical_pairs")
 
 
+def is_exact_obj(x):
+    return hasattr(x, "critical_pairs") and hasattr(x, "hom_deg")
+
+
+def numeric_cps(pl):
+    return all(isinstance(p[1], (int, float, np.integer, np.floating)) and not isinstance(p[1], bool)
+               for d in pl.critical_pairs for p in d)
+
+
 def cps_of(pl):
     """critical pairs as nested lists of Python floats (ints become floats)"""
     return [[[float(p[0]), float(p[1])] for p in d] for d in pl.critical_pairs]
@@ -332,6 +341,110 @@ def pointwise_exact(op, regs_cps, res_cps, exact, cap=60):
     return None
 
 
+# --------------------------------------------------------------------------- known finding: slope representation
+KNOWN_KEY = "slope-representation-starts-at-zero"
+KNOWN_SITE = "site=persim/landscapes/auxiliary.py:slope-representation-starts-at-zero"
+KNOWN_HIST = {"cls": "exact", "mode": "lattice", "exact": True, "nonzero_ends": True,
+              "leaves": [{"kind": "cps", "cps": [[[0.0, 1.0], [2.0, 1.0]]], "hom_deg": 0},
+                         {"kind": "cps", "cps": [[[0.0, 0.0], [1.0, 1.0], [2.0, 0.0]]], "hom_deg": 0}],
+              "ops": [["add", 0, 1]]}
+
+
+def known_listed():
+    return [t for k, t in common.known_findings("C09") if k == "known" and KNOWN_SITE in t]
+
+
+def known_text(kf):
+    return (KNOWN_SITE + " still fails: PersLandscapeExact(critical_pairs=[[[0,1],[2,1]]]) + "
+            "PersLandscapeExact(critical_pairs=[[[0,0],[1,1],[2,0]]]) returns [[0,0],[1,1],[2,0]] instead of a function equal to "
+            "1 + tent (exact +/- restart every depth at ordinate 0 and keep the last value to the right: critical points whose "
+            "first or last ordinate is not 0 lose that offset); listed in known_findings.txt" + ("" if kf else " [NOT LISTED]"))
+
+
+def slope_rep_part(d, t):
+    """what pos_to_slope_interp / slope_to_pos_interp keep of one depth list (an independent description of the known
+    defect, not of the code): the function restarted at ordinate 0 at its first abscissa and continued with slope 0, i.e.
+    constant, to the right of its last abscissa"""
+    if len(d) < 2 or t < d[0][0]:
+        return Fr(0)
+    if t > d[-1][0]:
+        return d[-1][1] - d[0][1]
+    return evalpl(d, t) - d[0][1]
+
+
+def slope_rep_attribution(op, regs_cps, res_cps, exact):
+    """A failing exact + / -: is it the known finding?  Yes iff some depth present in both operands has a non-zero first or
+    last ordinate AND the code's result is, at every sample point, exactly what the slope representation keeps (the sum of
+    the restarted parts between the smallest and the largest abscissa, 0 outside).  Returns 'first' / 'last_only' / None."""
+    name = op[0]
+    if name not in ("add", "sub"):
+        return None
+    A, B, R = frac_cps(regs_cps[op[1]]), frac_cps(regs_cps[op[2]]), frac_cps(res_cps)
+    if name == "sub":
+        B = [[(x, -y) for x, y in d] for d in B]
+    both = [(a, b) for a, b in zip(A, B) if a and b]
+    first = any(d[0][1] != 0 for a, b in both for d in (a, b))
+    last = any(d[-1][1] != 0 for a, b in both for d in (a, b))
+    if not (first or last):
+        return None
+    scale = max([abs(p[1]) for cps in (A, B, R) for d in cps for p in d] + [Fr(1)])
+    tol = Fr(0) if exact else Fr(TOL) * scale
+    pts = sample_points([A, B, R])
+    for k in range(max(len(A), len(B), len(R)) + 1):
+        a, b, r_ = depth_fn(A, k), depth_fn(B, k), depth_fn(R, k)
+        for t in pts:
+            if a and b:
+                xs_ = [p[0] for p in a] + [p[0] for p in b]
+                want = slope_rep_part(a, t) + slope_rep_part(b, t) if min(xs_) <= t <= max(xs_) else Fr(0)
+            else:
+                want = evalpl(a, t) + evalpl(b, t)          # a depth missing in one operand is taken over unchanged
+            if abs(evalpl(r_, t) - want) > tol:
+                return None
+    return "first" if first else "last_only"
+
+
+def known_replay(ctx):
+    """replay the listed input on the real code; while it still fails print the KNOWN-FINDING line"""
+    kf = known_listed()
+    with np.errstate(all="ignore"):
+        regs = [build_leaf(sp) for sp in KNOWN_HIST["leaves"]]
+        try:
+            res = apply_op(regs, KNOWN_HIST["ops"][0])
+            rc = cps_of(res)
+            bad = pointwise_exact(KNOWN_HIST["ops"][0], [cps_of(p) for p in regs], rc, True)
+            why = slope_rep_attribution(KNOWN_HIST["ops"][0], [cps_of(p) for p in regs], rc, True) if bad else None
+        except Exception as e:
+            bad, why, rc = {"raised": errtag(e)}, None, None
+    ctx.extra["known_finding_still_fails"] = bool(bad)
+    ctx.extra["known_finding_result"] = rc
+    if bad and why:
+        if kf:
+            ctx.known(KNOWN_KEY, known_text(kf))
+        else:
+            ctx.violation("exact + loses a non-zero first ordinate and this is not listed in known_findings.txt: %r" % (bad,),
+                          {"history": jsonable_hist(KNOWN_HIST), "failure": {"law": "pointwise", "op_index": 0, "at": bad}},
+                          found_input=True, reproducer=reproducer(KNOWN_HIST))
+    elif bad:
+        ctx.violation("the listed input of the known finding fails in another way than by losing the end ordinates: %r" % (bad,),
+                      {"history": jsonable_hist(KNOWN_HIST), "failure": {"law": "pointwise", "op_index": 0, "at": bad}},
+                      found_input=True, reproducer=reproducer(KNOWN_HIST))
+    else:
+        print("note: the listed known finding of C09 no longer reproduces on this tree", flush=True)
+    return kf
+
+
+def known_filter(ctx, op, regs_cps, res_cps, exact, bad):
+    """a failing pointwise law: None if it is the known finding (counted, KNOWN-FINDING line), else the failure itself"""
+    if not bad or ctx is None:
+        return bad
+    why = slope_rep_attribution(op, regs_cps, res_cps, exact)
+    if why and known_listed():
+        ctx.count("known_finding:attributed:%s_ordinate_nonzero:%s" % (why, op[0]))
+        ctx.known(KNOWN_KEY, known_text(True))
+        return None
+    return bad
+
+
 def expected_rejection_exact(op, regs):
     """the rejections the statement names (mismatched degree, zero divisor, non-number), written independently"""
     name = op[0]
@@ -442,9 +555,12 @@ def tent(b, d, t):
     return max(Fr(0), min(t - b, d - t))
 
 
-def gen_cps_leaf(ctx, mode, e, hom_deg, exact):
+def gen_cps_leaf(ctx, mode, e, hom_deg, exact, nonzero_ends=False):
     """arbitrary critical points: strictly increasing abscissae, zero ends, any sign; sometimes repeated
-    points (what zero-length bars produce) and single-point depths (what adding two such depths gives)"""
+    points (what zero-length bars produce) and single-point depths (what adding two such depths gives).
+    `nonzero_ends`: hand-made critical points OUTSIDE the class the theorems are about — the first and/or last
+    ordinate is not 0 (a constant offset on a whole depth, or the first / last / both end points dropped, so that
+    slopes stay dyadic on exact histories)"""
     r = ctx.rng
     cps = []
     for _ in range(r.randint(1, 4)):
@@ -479,11 +595,21 @@ def gen_cps_leaf(ctx, mode, e, hom_deg, exact):
         if r.random() < 0.2:            # repeat one point
             i = r.randrange(len(d_))
             d_.insert(i, list(d_[i]))
+        if nonzero_ends and r.random() < 0.8:
+            how = r.choice(["offset", "offset", "drop_first", "drop_last", "drop_both"])
+            if how == "offset":
+                c = r.choice([1.0, -1.0, 2.0, 0.5, -1.5, 3.0]) * (2.0 ** e if mode == "dyadic1" else 1.0)
+                d_ = [[p[0], p[1] + c] for p in d_]
+            else:
+                if how in ("drop_first", "drop_both") and len(d_) >= 3:
+                    d_ = d_[1:]
+                if how in ("drop_last", "drop_both") and len(d_) >= 3:
+                    d_ = d_[:-1]
         cps.append(d_)
     return {"kind": "cps", "cps": cps, "hom_deg": hom_deg}
 
 
-def gen_exact_history(ctx):
+def gen_exact_history(ctx, nonzero_ends=False):
     r = ctx.rng
     mode, exact = pick_mode(ctx)
     e = r.choice([-20, -3, 0, 0, 3, 20])
@@ -495,7 +621,7 @@ def gen_exact_history(ctx):
         if u < 0.5:
             leaves.append(gen_dgm_leaf(ctx, mode, e, hd))
         elif u < 0.97:
-            leaves.append(gen_cps_leaf(ctx, mode, e, hd, exact))
+            leaves.append(gen_cps_leaf(ctx, mode, e, hd, exact, nonzero_ends=nonzero_ends))
         elif u < 0.985:
             leaves.append({"kind": "dgm", "dgms": [[[coord(ctx, mode, e), math.inf]], []], "hom_deg": 0})  # empty landscape
         else:
@@ -513,7 +639,7 @@ def gen_exact_history(ctx):
         else:
             ops.append([kind, pick(), gen_scalar(ctx, exact, div=(kind == "div"))])
         nreg += 1       # optimistic; fixed up while running (an op that raises adds no register)
-    return {"cls": "exact", "mode": mode, "exact": exact, "leaves": leaves, "ops": ops}
+    return {"cls": "exact", "mode": mode, "exact": exact, "leaves": leaves, "ops": ops, "nonzero_ends": nonzero_ends}
 
 
 def gen_grid_params(ctx, mode, e, exact):
@@ -644,6 +770,7 @@ class Run:
         self.touched_at = None
         self.shared = 0
         self.leaf_error = None
+        self.outside = None        # why the history was cut short (an operation outside the model), if it was
         self.reg_exact = []        # per register: is every float operation behind it exact?
         self.op_exact = []         # per op: exactness of its result(s)
 
@@ -682,6 +809,14 @@ def run_history(hist, ctx=None):
                 if run.untouched:
                     run.touched_at = len(run.ops) - 1
                 run.untouched = False
+            if out is None and is_exact_obj(res) and not numeric_cps(res):
+                # a non-number scalar met only Python-int ordinates (`[1.0] * 0 == []`, `"x" * 0 == ""`): no exception, a
+                # landscape with non-numeric ordinates.  Non-number scalars are outside the property's quantifier ("all real
+                # scalars") and this case is outside the model (ASSUMPTIONS): the history ends before this operation.
+                run.ops.pop()
+                run.op_exact.pop()
+                run.outside = "nonnumber_scalar_times_integer_ordinates"
+                break
             if out is None:
                 new = list(res) if isinstance(res, list) else [res]
                 if any(not (hasattr(x, "hom_deg")) for x in new):
@@ -769,7 +904,22 @@ def hist_line(run, leaf_canon):
                            ",".join(op_token(o) for o in run.ops))
 
 
-def cmp_exact(code, model, exact):
+def hist_scale(run):
+    """largest finite magnitude of any ordinate / sample of any register of the history: the model replays the WHOLE history
+    from the leaves in exact arithmetic, so the code's rounding error in a late register is relative to the largest
+    intermediate value (e.g. (P - 1e9 Q) + (1e9 Q + R) cancels two terms of size 1e9), not to that register's own size"""
+    m = 1.0
+    for p in run.regs:
+        if is_exact(p):
+            vals = [abs(float(q[1])) for d in p.critical_pairs for q in d]
+        else:
+            v = np.asarray(p.values)
+            vals = np.abs(v.astype(float)).ravel().tolist() if v.dtype.kind in "fiu" else []
+        m = max([m] + [x for x in vals if math.isfinite(x)])
+    return m
+
+
+def cmp_exact(code, model, exact, scale0=1.0):
     """code: [hom_deg, cps(float)], model: [hom_deg, cps(Fraction)]"""
     if not isinstance(model, list) or len(model) != 2:
         return "model answered %r" % (model,)
@@ -777,7 +927,7 @@ def cmp_exact(code, model, exact):
         return "hom_deg %r vs %r" % (code[0], model[0])
     if len(code[1]) != len(model[1]):
         return "depth count %d vs %d" % (len(code[1]), len(model[1]))
-    scale = max([abs(p[1]) for d in code[1] for p in d if math.isfinite(p[1])] + [1.0])
+    scale = max([abs(p[1]) for d in code[1] for p in d if math.isfinite(p[1])] + [1.0, scale0])
     for k, (dc, dm) in enumerate(zip(code[1], model[1])):
         if len(dc) != len(dm):
             return "depth %d: %d points vs %d" % (k, len(dc), len(dm))
@@ -794,7 +944,7 @@ def cmp_exact(code, model, exact):
     return None
 
 
-def cmp_grid(code, model, exact):
+def cmp_grid(code, model, exact, scale0=1.0):
     if not isinstance(model, list) or len(model) != 5:
         return "model answered %r" % (model,)
     for name, i in (("hom_deg", 0), ("start", 1), ("stop", 2), ("num_steps", 3)):
@@ -803,7 +953,7 @@ def cmp_grid(code, model, exact):
     vc, vm = code[4], model[4]
     if len(vc) != len(vm):
         return "rows %d vs %d" % (len(vc), len(vm))
-    scale = max([abs(x) for row in vc for x in row if math.isfinite(x)] + [1.0])
+    scale = max([abs(x) for row in vc for x in row if math.isfinite(x)] + [1.0, scale0])
     for k, (rc, rm) in enumerate(zip(vc, vm)):
         if len(rc) != len(rm):
             return "row %d: %d samples vs %d" % (k, len(rc), len(rm))
@@ -1017,8 +1167,10 @@ def check_laws(ctx, run):
                     fails.append({"op_index": i, "op": op, "law": "result of finite operands must be finite (got NaN/inf)",
                                   "at": canon_reg(new[0]) if is_exact(new[0]) else "values"})
             elif hist["cls"] == "exact":
-                bad = pointwise_exact(op, regs_cps, cps_of(res), run.op_exact[i])
-                ctx.test("pointwise_exact", bad is None)
+                bad0 = pointwise_exact(op, regs_cps, cps_of(res), run.op_exact[i])
+                bad = known_filter(ctx, op, regs_cps, cps_of(res), run.op_exact[i], bad0)
+                if bad0 is None or bad is not None:      # failures that ARE the known finding are counted, not tested
+                    ctx.test("pointwise_exact", bad is None)
                 if bad:
                     fails.append({"op_index": i, "op": op, "law": "pointwise", "at": bad})
             elif name == "snap":
@@ -1136,6 +1288,8 @@ def process(ctx, runs):
                 if run.hist["cls"] == "exact":
                     lines.append("pla.xexpr %s %s" % (enc(leaf_canon), tree))
                     meta.append(("xexpr", run, target))
+                    if not all(wf_landscape_py(p) for p in run.regs[:len(run.hist["leaves"])]):
+                        continue        # `denote` is the pointwise expression: only claimed for well-formed leaves (known finding)
                     cps = frac_cps(cps_of(run.regs[target]))
                     k = ctx.rng.randrange(len(cps) + 1)
                     pts = sample_points([cps] + [frac_cps(c[1]) for c in leaf_canon])
@@ -1154,6 +1308,7 @@ def process(ctx, runs):
     for (kind, run, extra), ans, line in zip(meta, answers, lines):
         hist = run.hist
         problems = []
+        hs = hist_scale(run)
         if ans == "bad-op":
             raise HarnessError("driver rejected the line %s" % line[:300])
         if kind == "hist":
@@ -1173,27 +1328,27 @@ def process(ctx, runs):
                     problems.append((i, "code returned a landscape, model answered %s" % m))
                     continue
                 if hist["cls"] == "exact":
-                    d = cmp_exact(canon_reg(run.regs[out[1][0]]), m, exact)
+                    d = cmp_exact(canon_reg(run.regs[out[1][0]]), m, exact, hs)
                 elif out[2]:
                     if m[0] != "many" or len(m[1]) != len(out[1]):
                         d = "snap_pl returned %d landscapes, model %s" % (len(out[1]), str(m)[:80])
                     else:
                         d = None
                         for ri, mm in zip(out[1], m[1]):
-                            d = d or cmp_grid(canon_reg(run.regs[ri]), mm, exact)
+                            d = d or cmp_grid(canon_reg(run.regs[ri]), mm, exact, hs)
                 else:
-                    d = cmp_grid(canon_reg(run.regs[out[1][0]]), m[1], exact) if m[0] == "one" else "model answered %s" % str(m)[:80]
+                    d = cmp_grid(canon_reg(run.regs[out[1][0]]), m[1], exact, hs) if m[0] == "one" else "model answered %s" % str(m)[:80]
                 if d:
                     problems.append((i, d))
         elif kind == "xexpr":
             exact = run.reg_exact[extra]
-            d = cmp_exact(canon_reg(run.regs[extra]), ans, exact) if not isinstance(ans, str) else "run answered %s" % ans
+            d = cmp_exact(canon_reg(run.regs[extra]), ans, exact, hs) if not isinstance(ans, str) else "run answered %s" % ans
             ctx.count("expr_trees")
             if d:
                 problems.append((len(run.ops) - 1, "expression tree (run): " + d))
         elif kind == "gexpr":
             exact = run.reg_exact[extra]
-            d = cmp_grid(canon_reg(run.regs[extra]), ans, exact) if not isinstance(ans, str) else "runG answered %s" % ans
+            d = cmp_grid(canon_reg(run.regs[extra]), ans, exact, hs) if not isinstance(ans, str) else "runG answered %s" % ans
             ctx.count("expr_trees")
             if d:
                 problems.append((len(run.ops) - 1, "expression tree (runG): " + d))
@@ -1201,7 +1356,7 @@ def process(ctx, runs):
             target, k, pts = extra
             exact = run.reg_exact[target]
             cps = frac_cps(cps_of(run.regs[target]))
-            scale = max([abs(float(p[1])) for dd in cps for p in dd] + [1.0])
+            scale = max([abs(float(p[1])) for dd in cps for p in dd] + [1.0, hs])
             for t, v in zip(pts, ans):
                 got = evalpl(depth_fn(cps, k), t)
                 if (got != v) if exact else abs(float(got) - float(v)) > TOL * scale:
@@ -1211,7 +1366,7 @@ def process(ctx, runs):
             target, k = extra
             exact = run.reg_exact[target]
             vals = np.asarray(run.regs[target].values, dtype=float).tolist()
-            scale = max([abs(x) for row in vals for x in row] + [1.0])
+            scale = max([abs(x) for row in vals for x in row] + [1.0, hs])
             for j, v in enumerate(ans):
                 got = gval(vals, k, j)
                 if (Fr(got) != v) if exact else abs(got - float(v)) > TOL * scale:
@@ -1256,6 +1411,7 @@ def deep_search(ctx, run):
                 continue
             if expected_rejection_exact(op, regs) is None and all(finite_landscape(p) for p in regs + [res]):
                 bad = pointwise_exact(op, [cps_of(p) for p in regs], cps_of(res), run.op_exact[i], cap=10 ** 9)
+                bad = known_filter(ctx, op, [cps_of(p) for p in regs], cps_of(res), run.op_exact[i], bad)
                 if bad:
                     ctx.violation("pointwise law fails on the real code at %r (found after a code/model disagreement)" % (bad,),
                                   {"history": jsonable_hist(hist), "failure": {"op": op, "at": bad}}, found_input=True,
@@ -1311,9 +1467,11 @@ def run(ctx):
     if ANCHOR_DIGEST is not None and ctx.extra["anchored_digest"] != ANCHOR_DIGEST and not ctx.thorough:
         n = 1500            # the anchored functions were rewritten: explore harder (DESIGN 3.2)
         ctx.count("digest_changed")
-    hists = list(CORPUS)
+    known_replay(ctx)
+    hists = list(CORPUS) + [KNOWN_HIST]
     for _ in range(n):
-        hists.append(gen_exact_history(ctx) if r.random() < 0.55 else gen_grid_history(ctx))
+        u = r.random()
+        hists.append(gen_exact_history(ctx, nonzero_ends=u < 0.1) if u < 0.55 else gen_grid_history(ctx))
     batch = []
     cov = common.LineCov(E_FILES)
     for hi, hist in enumerate(hists):
@@ -1332,7 +1490,11 @@ def run(ctx):
         nontrivial = any(o[0] == "ok" and op[0] in ("add", "sub", "snap", "lc", "avg") for op, o in zip(runx.ops, runx.outcomes))
         ctx.case({"cls": hist["cls"], "leaves": hist["leaves"], "ops": runx.ops}, nontrivial, sample_every=61)
         ctx.count("histories:" + hist["cls"] + (":exact-arith" if hist["exact"] else ":tolerance"))
+        if hist.get("nonzero_ends"):
+            ctx.count("histories:exact:hand-made critical points with non-zero end ordinates")
         ctx.count("history_len:%d" % len(runx.ops))
+        if runx.outside:
+            ctx.count("history_cut:outside_model:" + runx.outside)
         ctx.test("operands_untouched", runx.untouched)
         if runx.shared:
             ctx.count("result_shares_operand_depth_lists", runx.shared)
